@@ -230,20 +230,24 @@ func IsSameStep(startSample, endSample, step, duration, currT, nextT int64) bool
 	if currT < startSample && nextT > startSample {
 		return false
 	}
-	n1 := (currT - startSample) / step
-	n2 := (nextT - startSample) / step
+	var r1, r2 int64
+	if (currT-startSample) <= 0 && (nextT-startSample) <= 0 {
+		if (currT-startSample)/step != (nextT-startSample)/step {
+			return false
+		}
+		r1, r2 = (startSample-currT)%step, (startSample-nextT)%step
+		return r1 <= duration && r2 <= duration
+	}
+	// a sample belongs to the first step at or after it: one exactly on a step belongs to that step,
+	// like the samples shortly before it
+	n1 := (currT - startSample + step - 1) / step
+	n2 := (nextT - startSample + step - 1) / step
 	if n1 != n2 {
 		return false
 	}
 	delta := step - duration
-	var r1, r2 int64
-	if (currT-startSample) <= 0 && (nextT-startSample) <= 0 {
-		r1, r2 = (startSample-currT)%step, (startSample-nextT)%step
-		return r1 <= duration && r2 <= duration
-	} else {
-		r1, r2 = (currT-startSample)%step, (nextT-startSample)%step
-		return r1 >= delta && r2 >= delta
-	}
+	r1, r2 = (currT-startSample)%step, (nextT-startSample)%step
+	return (r1 == 0 || r1 >= delta) && (r2 == 0 || r2 >= delta)
 
 }
 
